@@ -21,7 +21,6 @@ pub mod shim;
 pub mod h_attack;
 pub mod h_filter;
 pub mod h_k;
-#[cfg(kani)]
 pub mod h_push;
 pub mod h_text;
 pub mod h_unit;
